@@ -35,7 +35,9 @@ EXPLANATION = (
     'R-C01.8 an alter-table item whose producer changes field.db_index puts its field where the rebuild computes new_fields from (the rebuild re-creates field indexes from that list, built from its own model); R-C01.9 the deleted-column filter of the rebuild ranges over the existing fields only, never over added_fields; '
     'R-C01.10 quoted column identifiers come from Field.column and a REFERENCES clause names the related primary key field\'s column; R-C01.11 the two exits of the SQLite to_sql concatenate their parts in the same order; R-C01.12 the scanned database state records index/unique entries only; R-C01.13 deleting a column forgets its indexes in the state; R-C01.14 the from_/to_ naming of an automatic many-to-many table is decided by comparing lower-cased model names.'
     ' '
-    "R-C01.15 (= R-C05.8) every reader that combines the common ('*') and the field-type-specific table of _ATTRIBUTE_DEFAULTS lets the type-specific entry win (precedence evaluated for the loop/first-hit, dict-merge, update, nested-get and ChainMap forms).")
+    "R-C01.15 (= R-C05.8) every reader that combines the common ('*') and the field-type-specific table of _ATTRIBUTE_DEFAULTS lets the type-specific entry win (precedence evaluated for the loop/first-hit, dict-merge, update, nested-get and ChainMap forms)."
+    ' '
+    'R-C01.16 every model-level mutate() queues an operation on every normal path (otherwise the mutation is not replayed when SQL is generated); ChangeField is a reasoned exemption.')
 NOT_DECIDED = (
     'That the generated SQL executes and yields the same schema as creating '
     'the models from scratch, for any schema/sequence (needs SQLite and '
@@ -1124,7 +1126,85 @@ def r15_defaults_precedence(ctx):
     r8_defaults_precedence(ctx, rule_id='R-C01.15')
 
 
+QUEUES_NOTHING_BY_DESIGN = {
+    'ChangeField': 'a ChangeField whose attributes already have the '
+                   'requested values (and whose type does not change) queues '
+                   'no operation; pre-existing behaviour, not decided here',
+}
+
+
+def r16_every_model_mutation_queues_an_op(ctx, rule_id='R-C01.16'):
+    """AppMutator generates SQL in a second pass: it resets the signature
+    and re-simulates a mutation only when it finishes one of the operations
+    that mutation queued on the ModelMutator (finish_op).  A model-level
+    mutate() that returns without queueing anything - even an operation with
+    empty SQL - is therefore *not replayed*: later mutations of the same run
+    are lowered against a signature in which it never happened
+    (`RenameField(..., db_column=<same column>)` followed by a ChangeField on
+    the new name raises FieldDoesNotExist during SQL generation)."""
+    ctx.rule(rule_id)
+    p = ctx.program
+    queue_methods = {m.name for _t, _d, m in model_mutator_producers(ctx)}
+    # wrappers on the mutator that end in one of them (add_m2m_table, ...)
+    ctx.floor('ModelMutator methods that queue an operation',
+              len(queue_methods), 5)
+    n_cls = 0
+    from ..util import unit
+    for m in p.modules.values():
+        if not m.name.startswith('django_evolution.mutations'):
+            continue
+        for c in m.classes.values():
+            f = c.methods.get('mutate')
+            if f is None or 'model' not in f.params:
+                continue
+            if not any(isinstance(x, ast.Call) and
+                       call_name(x) in queue_methods
+                       for fn in unit(ctx, f) for x in walk_no_nested(fn.node)):
+                continue       # abstract / delegates elsewhere
+            n_cls += 1
+            g = ctx.cfg(f)
+
+            def queues(node):
+                for x in node.calls():
+                    if call_name(x) in queue_methods:
+                        return True
+                    # a private helper of the class that always queues
+                    if isinstance(x.func, ast.Attribute) and \
+                            isinstance(x.func.value, ast.Name) and \
+                            x.func.value.id == 'self':
+                        h = c.find_method(x.func.attr)
+                        if h is not None and h is not f:
+                            hg = ctx.cfg(h)
+                            hq = [n for n in hg.nodes if any(
+                                call_name(y) in queue_methods
+                                for y in n.calls())]
+                            if hq and hg.path(hg.entry, hg.exit, avoid=hq,
+                                              follow_exc=False) is None:
+                                return True
+                return False
+            qn = [n for n in g.nodes if queues(n)]
+            esc = g.path(g.entry, g.exit, avoid=qn, follow_exc=False)
+            if esc is None:
+                ctx.ok(f, '%s.mutate queues an operation on every normal '
+                       'path' % c.name)
+            elif c.name in QUEUES_NOTHING_BY_DESIGN:
+                ctx.info('%s.mutate can return without queueing (%s)' % (
+                    c.name, QUEUES_NOTHING_BY_DESIGN[c.name]))
+            else:
+                ctx.finding(f, None, '%s.mutate can return without queueing '
+                            'any operation (lines %s): the mutation is then '
+                            'not re-simulated when SQL is generated, and '
+                            'every later mutation of the run sees a '
+                            'signature in which it never happened' % (
+                                c.name, ' -> '.join(
+                                    str(getattr(x.stmt, 'lineno', 0))
+                                    for x in esc if x.stmt is not None)),
+                            key='mutate-queues-nothing')
+    ctx.floor('model-level mutation classes that queue operations', n_cls, 6)
+
+
 def run(ctx):
+    r16_every_model_mutation_queues_an_op(ctx)
     r15_defaults_precedence(ctx)
     r14_m2m_through_naming(ctx)
     r12_state_tracks_indexes_only(ctx)
